@@ -146,6 +146,7 @@ func init() {
 		Harnesses: []Harness{
 			{Func: "H_C12_assemble", Quick: c12Tuples(true), Thorough: c12Tuples(false), Covers: []string{"assembled", "error"}},
 			{Func: "H_C12_collision", Quick: rng(2, 3), Thorough: rng(2, 4), Covers: []string{"end"}},
+			{Func: "H_C12_dup_patches", Covers: []string{"end"}},
 		},
 	})
 	register(&Prop{
